@@ -43,11 +43,21 @@ CLAIMS['C05'] = dict(ref='DESIGN.md §3 C05, Part A',
 CLAIMS['C20'] = dict(ref='DESIGN.md §3 C20, Part A',
                      text="Totality and purity by bounded symbolic execution: for the entry points listed in the evidence (classification, comparisons, Round/Ceil/Floor regions, New/Ldexp/Frexp, binary form, integer conversions, far-gap Add/Sub, Mul, short Parse/Compose inputs, the rounding kernels) every panic / out-of-range index / nil dereference site is a proof obligation (path condition must be unsat) except the documented panics, which are checked to occur exactly as documented; any store to a package variable by library code fails the check.",
                      note=TRUST + "Only the listed entry points and argument regions are covered; transcendental functions, division loops, formatting and float conversions are outside. Interleavings are not explored: data-race freedom is argued from the absence of shared writes, not model checked.")
+CLAIMS['C13'] = dict(ref='DESIGN.md Part A',
+                     text="Decoding half only: bounded symbolic model checking of UnmarshalJSON on every byte string up to 5 bytes (7 thorough): null/empty leave the receiver untouched, every RFC 8259 number gets exactly the value the text denotes (independent JSON-number recogniser; rounding kernel cut), every other input is an *json.UnmarshalTypeError with the receiver untouched or a lenient numeral form with exactly the denoted value. MarshalJSON is NOT covered.",
+                     note=TRUST + "encoding/json is replaced by its documented contract (the method receives the raw token); MarshalJSON, the Marshal/Unmarshal round trip and inputs longer than the bound are outside this check.")
 NA = {
     'C16': "accuracy of the exp/log series is numerical analysis over iterated 192-bit mul/div with data-dependent loops; no bounded solver query decides a one-ulp error bound (DESIGN.md §5)",
     'C17': "convergence of the fixed-count Heron/Halley iterations with symbolic 192-bit division is not expressible as a decidable bounded query (DESIGN.md §5)",
 }
-PENDING = "check not built yet in this session (work in progress; see DESIGN.md)"
+NA.update({
+    'C03': "not built: QuoRem's quotient and remainder loops run a data-dependent number of iterations (hundreds for large exponent gaps); the one-step induction designed in DESIGN.md Part B §1.5 was not implemented in the available time, and bounded unrolling alone does not reach the property's quantifier (the special-operand table of QuoRem is checked under C15)",
+    'C06': "not built to a usable bound: the digit-generation code (Decimal.digits, fmtE/fmtF) was encoded and harnessed (harness/zz_verif_c06.go), but the obligations relating the printed digits to the coefficient stay undecided beyond ~5-digit coefficients (cvc5 and z3 both time out), so no bound worth registering ran clean",
+    'C07': "not built: depends on the same formatting code as C06 plus the fmt flag/width/precision layout; nothing ran clean within reach",
+    'C09': "not built: needs an integer model of float64/float32 rounding (float64(uint64), math.Ldexp, big.Float) in the executor that was not implemented in the available time",
+    'C18': "not built: only the special-case ladder would be within reach (the general path is log/mul/exp arithmetic, see C16); the ladder harness was not completed in the available time",
+})
+PENDING = "not built in this session"
 
 
 def main():
